@@ -19,6 +19,7 @@ open Pcore.Reflect
 #print axioms C18_roundtrip_full_fails
 #print axioms C18_uint64_overflow
 #print axioms C18_float_inf_rejected
+#print axioms C18_float64_inf_repaired
 #print axioms C18_bytes_become_binary
 #print axioms C18_nil_slice_undef_rejected
 #print axioms C18_nil_map_undef_rejected
